@@ -81,13 +81,13 @@ theorem planE_decOKP' (c : Ref) : DecOKP' (F := Int) d0 {} decE planE c :=
 theorem planE_sel (c : Ref) : sel (F := Int) d0 {} planE c = .ok [⟨.node 4, 1, 0⟩] := by
   simp only [planE, inpC, predE]; sel_decide
 
-/-- **`drain2_eq_sel'` / `C12_all_iterators_refine_sequence'`** with every hypothesis discharged:
+/-- **`drain2_eq_sel'` / `C12_all_iterators_refine_sequence_any_predicate`** with every hypothesis discharged:
 the pull machine of `/r/*[@y]` reports `[b]` (position 1), as `sel` does -/
 theorem drain2_eq_sel'_instance :
     sel (F := Int) d0 {} planE (.node 0) = .ok [⟨.node 4, 1, 0⟩] ∧
     ∃ q' c' f0, (∀ f, f0 ≤ f → drain2 d0 {} decE f qE (.node 0) = some ([⟨.node 4, 1, 0⟩], q', c')) ∧
       (∀ c'', rem2 d0 {} decE c'' q' = []) := by
-  obtain ⟨l, h1, h2⟩ := Theorems.C12.C12_all_iterators_refine_sequence' (F := Int) d0 {} decE (by decide) planE qE
+  obtain ⟨l, h1, h2⟩ := Theorems.C12.C12_all_iterators_refine_sequence_any_predicate (F := Int) d0 {} decE (by decide) planE qE
     qE_ofPlan (fun _ => wf_d0) (.node 0) (qE_decOK' _) (good0 0)
   rw [planE_sel] at h1; cases h1
   exact ⟨planE_sel _, h2⟩
@@ -103,26 +103,26 @@ theorem qE1_reach : Reach d0 {} decE planE qE1 :=
   .select (f := 100) (c := .node 0) (.evaluate qE rfl) (good0 0) rfl
     (show (PQ2.select d0 {} decE 100 qE.evaluate (.node 0)).1 ≠ .fuel by decide +kernel)
 
-/-- **`reach_evaluate_restarts'` / `evaluate_restarts_all_iterators'`** with `hd`, `hw`, `Reach`,
+/-- **`reach_evaluate_restarts'` / `evaluate_restarts_all_iterators_any_predicate`** with `hd`, `hw`, `Reach`,
 `DecOK'`, `Good` discharged: re-evaluating the mid-iteration machine for another context node (`b`)
 reports the whole sequence `[b]` again, and nothing else at any fuel -/
 theorem evaluate_restarts'_instance :
     sel (F := Int) d0 {} planE (.node 4) = .ok [⟨.node 4, 1, 0⟩] ∧
     (∃ q' c' f0, ∀ f, f0 ≤ f → drain2 d0 {} decE f qE1.evaluate (.node 4) = some ([⟨.node 4, 1, 0⟩], q', c')) ∧
     (∀ f l' q' c', drain2 d0 {} decE f qE1.evaluate (.node 4) = some (l', q', c') → l' = [⟨.node 4, 1, 0⟩]) := by
-  obtain ⟨l, h1, h2⟩ := Theorems.C02.evaluate_restarts_all_iterators' (F := Int) d0 {} decE (by decide)
+  obtain ⟨l, h1, h2⟩ := Theorems.C02.evaluate_restarts_all_iterators_any_predicate (F := Int) d0 {} decE (by decide)
     planE (fun _ => wf_d0) qE1 qE1_reach (.node 4)
     (reach_decOK' d0 {} decE (by decide) planE (fun _ => wf_d0) _ (planE_decOKP' _) qE1 qE1_reach) (good0 4)
   rw [planE_sel] at h1; cases h1
   exact ⟨planE_sel _, h2⟩
 
-/-- **`clone_fresh2'` / `clone_is_fresh_all_iterators'`**: the clone of the mid-iteration machine
+/-- **`clone_fresh2'` / `clone_is_fresh_all_iterators_any_predicate`**: the clone of the mid-iteration machine
 streams `[b]` -/
 theorem clone_fresh'_instance :
     qE1.clone.evaluate = qE1.clone ∧ qE1.clone.Inv d0 ∧ rem2 d0 {} decE (.node 0) qE1.clone = [⟨.node 4, 1, 0⟩] := by
   have hd : qE1.DecOK' (F := Int) d0 {} decE (.node 0) :=
     reach_decOK' d0 {} decE (by decide) planE (fun _ => wf_d0) _ (planE_decOKP' _) qE1 qE1_reach
-  obtain ⟨h1, h2, h3⟩ := Theorems.C04.clone_is_fresh_all_iterators' (F := Int) d0 {} decE qE1 (.node 0) hd
+  obtain ⟨h1, h2, h3⟩ := Theorems.C04.clone_is_fresh_all_iterators_any_predicate (F := Int) d0 {} decE qE1 (.node 0) hd
   rw [(reach_inv d0 {} decE (by decide) planE (fun _ => wf_d0) qE1 qE1_reach).1, planE_sel] at h3
   cases h3
   exact ⟨h1, h2, rfl⟩
